@@ -296,3 +296,6 @@ not_reproduced()
 """
 
 LEVEL_TEXT = LEVEL_TEXT
+
+# level text addendum (cases added after the seeded-change rounds)
+LEVEL_TEXT = LEVEL_TEXT + ' Also: odd and even mute windows down to 1 sample, 1 channel, 1 sample, ranges as a list, the same call repeated on the same range array, and an IEEE lemma (cvc5): flag <=> 100 k > a nc for every nc <= 400, k <= nc and proportion a/100.'
